@@ -28,8 +28,9 @@ def _(self: LoadingContext, persistent_id: Opt[Int]) -> Token:
 
 @extern("Token.save")
 def _(self: Token, database: Database):
-    """(Token.save is proved in contracts/C08.py; here what a container relies on: whoever returns from save() holds a saved token,
-    and an id once assigned never changes)"""
+    """What a container relies on.  Proved in contracts/C08.py: ids are stable, and a caller that is the FIRST saver returns normally
+    only with an id.  Assumed here on top of that: a caller that found a save in flight also resumes with an id — true unless that
+    other save FAILED (its `finally` sets the event without an id; the workflow then fails through the first saver's exception)."""
     assigns(all_of("PersistableEntity.persistent_id"), all_of("PersistableEntity._saving"), all_of("Event.is_set"))
     raises(WorkflowExecutionException)
     ensures(self.persistent_id is not None)
